@@ -12,6 +12,12 @@ def hook_commits():
         return []
 
 CHECKS = {
+ "C12": dict(
+    level="exploration",
+    technique="fuzzing through one in-process entry point with the output-file contract as in-target oracle: corpus replay, rapid schema-aware YAML node confusion, rapid arbitrary glob patterns and flag subsets; thorough tier adds Go native coverage-guided fuzzing (12 workers, fixed wall budget)",
+    text="Searches the input space for panics, hangs and contract breaks; the quick tier is deterministic for a given VERIF_SEED (no native fuzzing), the thorough tier adds several hundred thousand coverage-guided executions.",
+    note="Never establishes absence. Inputs with dense strongly connected components or over 64 KiB are skipped by an over-approximating pre-pass; goimports' package search is kept away from the module cache.",
+    ref="DESIGN.md §4 C12"),
  "C19": dict(
     level="exploration",
     technique="fixpoint / differential check over generations (tool from tree -> regenerate -> rebuild scratch copy with the regenerated file -> regenerate) x rapid-drawn neutral perturbations of the repository's own configuration (key permutation, re-serialisation, file split, explicit list vs glob, absolute paths, cwd, environment, stub)",
